@@ -178,6 +178,9 @@ class GVCase:
                     break
             self.s2spec.append(idx[(a, class_key(c["S"], self.D, u[k]))])
             self.s_atom.append(a)
+        # primitive atom i is represented by supercell atom p2s[i] (its row of force constants, the origin of its
+        # shortest vectors); Primitive.positions may be that position wrapped by a primitive lattice vector
+        n.at = [self.s_atom[k] for k in self.prim.p2s_map]
         # unit-cell atom -> primitive atom of its sublattice, through the specification's centring translations
         cents = set(tuple(v) for v in built["cents"]) if c.get("prim") else {(0, 0, 0)}   # unit cell used as primitive cell
         if len(cents) * len(self.prim) != len(n.uc) or self.N != len(cents) * abs(int(round(np.linalg.det(np.array(c["S"], float))))):
